@@ -127,8 +127,13 @@ impl<T> Queue<T> {
                                 .tail
                                 .compare_exchange(tail, next, Release, Relaxed, guard);
                         }
+                        // Read the element before retiring the old sentinel: in this version
+                        // a deferral can run a registry scan and re-pin the thread several
+                        // times, after which `n` (the new sentinel, which the next pop retires)
+                        // may already have been freed.
+                        let data = n.data.assume_init_read();
                         guard.defer_destroy(head);
-                        Some(n.data.assume_init_read())
+                        Some(data)
                     })
                     .map_err(|_| ())
             },
@@ -159,8 +164,13 @@ impl<T> Queue<T> {
                                 .tail
                                 .compare_exchange(tail, next, Release, Relaxed, guard);
                         }
+                        // Read the element before retiring the old sentinel: in this version
+                        // a deferral can run a registry scan and re-pin the thread several
+                        // times, after which `n` (the new sentinel, which the next pop retires)
+                        // may already have been freed.
+                        let data = n.data.assume_init_read();
                         guard.defer_destroy(head);
-                        Some(n.data.assume_init_read())
+                        Some(data)
                     })
                     .map_err(|_| ())
             },
